@@ -32,7 +32,7 @@ TAG_FIT = 'itml:_BaseITML._fit'
 PRIORS = ('identity', 'covariance', 'random', 'array')
 GAMMAS = (0.01, 0.1, 1.0, 10.0, 1e3, 1e6)
 GRAB = ('_lambda', 'lambdaold', 'pos_bhat', 'neg_bhat', 'A', 'pos_vv', 'neg_vv', 'num_pos', 'pairs', 'y', 'conv', 'it')
-K_TOL = 20.0      # safety factor between the solver's stopping quantity and the KKT residual that is accepted
+K_TOL = 200.0      # safety factor between the solver's stopping quantity and the KKT residual that is accepted
 
 
 class FitFrame:
@@ -58,6 +58,18 @@ class FitFrame:
     return False
 
 
+def definiteness(M, scale=0.0):
+  """'pd' (resolved in double precision), 'unresolved' (smallest eigenvalue within the rounding level of the solver's
+  history: relative to the largest eigenvalue / the scale of the prior / the asymmetry the updates left behind), or 'indefinite'"""
+  w = np.linalg.eigvalsh((M + M.T) / 2)
+  ref = max(w[-1], scale)
+  if w[0] > 1e-13 * ref:
+    return 'pd'
+  if w[-1] > 0 and w[0] >= -max(1e-10 * ref, 100 * np.abs(M - M.T).max()):
+    return 'unresolved'
+  return 'indefinite'
+
+
 def spd_from(rng, d, cond):
   Q, _ = np.linalg.qr(rng.randn(d, d))
   w = np.exp(rng.uniform(0, np.log(cond), d)) if d > 1 else np.array([1.5])
@@ -68,7 +80,7 @@ def spd_from(rng, d, cond):
 def instances(tier, seed):
   """deterministic list of instance descriptions (plain dicts of json-able values)"""
   rng = np.random.RandomState(seed)
-  n = 30 if tier == 'quick' else 200
+  n = 48 if tier == 'quick' else 200
   out = []
   budgets = [(1, 1e-3), (5, 1e-3), (1000, 1e-3), (1000, 1e-6), (5, 1e-9), (1000, 1e-9), (3000, 1e-10), (1, 1e-6)]
   bound_kinds = ['default', 'quantiles', 'crossing', 'prior-feasible', 'default', 'quantiles']
@@ -206,6 +218,8 @@ def check_instance(ml, inst, stats=None):
   from metric_learn import _util
   r = fit_instance(ml, inst)
   if 'skip' in r:
+    if stats is not None:
+      stats['skipped'] = r['skip']
     return None
   fr = r['frame'] or {}
   err = r['error']
@@ -220,9 +234,16 @@ def check_instance(ml, inst, stats=None):
                                                   matrix_name='prior')
     except Exception as e0:
       if err is not None and type(e0) is type(err):
+        if stats is not None:
+          stats['skipped'] = 'prior not strictly positive definite'
         return None                  # the prior is not strictly PD on this input: outside the quantifier
       raise
   if err is not None:
+    A = fr.get('A')
+    if isinstance(A, np.ndarray) and np.all(np.isfinite(A)) and definiteness(A, np.linalg.norm(M0, 2) if M0 is not None else 0.0) == 'unresolved':
+      if stats is not None:
+        stats['unresolved'] = True
+      return None                    # rounding made a matrix of condition > 1/eps numerically indefinite: cannot be resolved
     return bad(inst, 'spd', 'fit raised %s: %s' % (type(err).__name__, str(err)[:200]), bounds=r.get('bounds'))
   missing = [k for k in ('_lambda', 'pos_vv', 'neg_vv', 'num_pos', 'pos_bhat', 'neg_bhat', 'A') if k not in fr]
   if missing or M0 is None:
@@ -230,12 +251,16 @@ def check_instance(ml, inst, stats=None):
   est = r['est']
   y = np.asarray(fr['y'])
   if not ((y == 1).any() and (y == -1).any()):
+    if stats is not None:
+      stats['skipped'] = 'single label'
     return None                      # single-label pair set: outside the quantifier
   M = est.get_mahalanobis_matrix()
   lam = np.asarray(fr['_lambda'], dtype=float)
   npos = int(fr['num_pos'])
   V = np.vstack([fr['pos_vv'], fr['neg_vv']])
   if not np.all(np.einsum('ij,ij->i', V, V) > 0):
+    if stats is not None:
+      stats['skipped'] = 'collapsed pair'
     return None                      # collapsed pair: outside the quantifier
   sgn = np.r_[np.ones(npos), -np.ones(len(V) - npos)]
   info = dict(bounds_=est.bounds_.tolist(), n_iter_=int(est.n_iter_), lambda_=lam.tolist())
@@ -246,7 +271,14 @@ def check_instance(ml, inst, stats=None):
   if not np.allclose(M, M.T, rtol=1e-10, atol=1e-13 * np.abs(M).max()):
     return bad(inst, 'spd', 'M is not symmetric: max |M - M^T| = %g' % np.abs(M - M.T).max(), **info)
   w = np.linalg.eigvalsh((M + M.T) / 2)
-  if not w[0] > 0:
+  dM = definiteness(M, np.linalg.norm(M0, 2))
+  if dM != 'pd':
+    if dM == 'unresolved':
+      # cond(M) beyond double precision (typically bounds_[0] = 1e-9 from the default percentile rule on < 20 points):
+      # definiteness and the inverse identity cannot be resolved numerically -- not counted either way
+      if stats is not None:
+        stats['unresolved'] = True
+      return None
     return bad(inst, 'spd', 'M is not positive definite: eigenvalues %r' % w.tolist(), **info)
   # ---- dual-nonnegative ----
   if not np.all(np.isfinite(lam)) or lam.min() < 0:
@@ -261,9 +293,14 @@ def check_instance(ml, inst, stats=None):
   e1 = np.abs(Minv - Minv_pred).max() / scale
   # second, better conditioned form of the same identity:  M (inv(M0) + S) == I
   e2 = np.abs(M.dot(Minv_pred) - np.eye(len(M))).max()
-  # rounding: the rank-one updates leave an absolute error ~ eps * max|A| in A, i.e. eps * |A|max * |inv(M)| relative in inv(M)
-  rho = 1e-13 * max(np.linalg.norm(M0, 2), w[-1]) / w[0]
+  # rounding: N rank-one updates leave an absolute error ~ N * eps * max|A| in A, i.e. rho relative in inv(M)
+  n_upd = (int(est.n_iter_) + 1) * len(V)
+  rho = (1e-13 + 4 * np.finfo(float).eps * n_upd) * max(np.linalg.norm(M0, 2), w[-1]) / w[0]
   tol_id = 1e-6 + rho
+  if rho > 1e-2:
+    if stats is not None:
+      stats['unresolved'] = True
+    return None                      # conditioning x update count beyond what double precision resolves
   if stats is not None:
     stats.update(e1=e1, e2=e2, cond=cond, n_iter=int(est.n_iter_), conv=fr.get('conv'))
   if not (e1 <= tol_id or e2 <= tol_id):
@@ -296,8 +333,8 @@ def check_instance(ml, inst, stats=None):
     xi_solver = np.r_[fr['pos_bhat'], fr['neg_bhat']]
     slack_ok = np.abs(1.0 / xi_solver - inv_xi) <= 1e-7 * (np.abs(inv_xi) + 1.0 / b0) + tau_r
     if stats is not None:
-      stats.update(converged=True, margin=float((np.minimum(np.abs(res), np.where(res > 0, lam / gproj, np.inf)) / tau_r).max()), kkt_ratio=float((np.minimum(np.abs(res), np.where(res > 0, lam / gproj, np.inf)) * gproj).max()
-                                                   / (inst['tol'] * normsum)) if normsum > 0 else 0.0)
+      pend = np.minimum(np.abs(res), np.where(res > 0, lam / gproj, np.inf))      # pending dual step of each constraint / gproj
+      stats.update(converged=True, margin=float((pend / tau_r).max()))
     okc = tight | inactive
     if not np.all(okc):
       i = int(np.argmin(okc))
@@ -311,27 +348,48 @@ def check_instance(ml, inst, stats=None):
   return None
 
 
+def safe_check(ml, inst, stats=None):
+  with warnings.catch_warnings():
+    warnings.simplefilter('ignore')
+    try:
+      with np.errstate(all='ignore'):
+        return check_instance(ml, inst, stats)
+    except Exception as e:       # an exception of the oracle itself must not be mistaken for a pass
+      return bad(inst, 'stand-in-error', 'the stand-in raised %s: %s' % (type(e).__name__, str(e)[:300]))
+
+
+def rerun(failing_input):
+  """re-evaluate a recorded failing input (the `input` of a violation) on the current tree"""
+  return safe_check(repo(), failing_input)
+
+
 def cases(tier, seed):
   ml = repo()
   for inst in instances(tier, seed):
     def thunk(inst=inst):
-      return check_instance(ml, inst)
+      return safe_check(ml, inst)
     yield describe(inst), (TAG_FIT,), thunk
 
 
 def run(tier, seed):
   ml = repo()
+  t0 = time.time()
   n = 0
   vio, samples = [], []
   distinct = set()
-  nconv = nfix = 0
+  nconv = nfix = nunres = nskip = 0
   seen_sig = set()
   for inst in instances(tier, seed):
     n += 1
     desc = describe(inst)
     st = {}
-    b = check_instance(ml, inst, st)
-    distinct.add(desc)
+    b = safe_check(ml, inst, st)
+    if st.get('unresolved'):
+      nunres += 1
+    elif st.get('skipped'):
+      nskip += 1
+    else:
+      distinct.add(desc)
     nconv += bool(st.get('converged'))
     nfix += bool(st.get('prior_feasible'))
     if n % 7 == 1 and len(samples) < 6:
@@ -344,24 +402,27 @@ def run(tier, seed):
       vio.append(dict(clause='runtime/C11/%s' % b['tag'], input=b['input'], observed=b['observed'], signature=sig))
   return dict(cases=n, distinct_nontrivial=len(distinct),
               rule='generated pair sets over a shared point pool (both labels, distinct points) x priors {identity, covariance, random, SPD array} x '
-                   'gamma in %s x bounds {default, quantiles of prior distances, crossing, prior-feasible} x (max_iter, tol) budgets incl. '
-                   '1, 5, 1000 and a tight-tolerance run; ITML and ITML_Supervised; solver duals read from the _fit frame via sys.setprofile; '
-                   'distinct = distinct configuration string; %d instances left through conv < tol (KKT clause evaluated), %d had a prior satisfying all bounds'
-                   % (list(GAMMAS), nconv, nfix),
-              bound='n_features <= 6, <= 13 pairs over <= 16 points, %d instances' % n,
-              standin_samples=samples, violations=vio)
+                   'gamma in %s x bounds {default, quantiles of prior distances, crossing (upper > lower), prior-feasible} x (max_iter, tol) budgets '
+                   '{(1,1e-3),(5,1e-3),(1000,1e-3),(1000,1e-6),(5,1e-9),(1000,1e-9),(3000,1e-10),(1,1e-6)}; ITML and ITML_Supervised; solver duals read from the '
+                   '_fit frame via sys.setprofile; distinct = distinct configuration string among the instances evaluated in full; %d instances left through '
+                   'conv < tol (KKT clause evaluated), %d had a prior satisfying all bounds (fix-point clause evaluated), %d were numerically unresolvable '
+                   '(condition of M x update count beyond double precision; not counted either way), %d outside the quantifier'
+                   % (list(GAMMAS), nconv, nfix, nunres, nskip),
+              bound='n_features <= 6, <= 16 pairs over <= 34 points, %d instances' % n,
+              standin_samples=samples, violations=vio, seconds=round(time.time() - t0, 1))
 
 
 def replay_clause(cid, fail, seed):
   want = cid.split('/')[-1] if cid.startswith('runtime/') else None
   first = None
-  for desc, tags, thunk in cases('quick', seed):
-    b = thunk()
-    if b:
-      if first is None:
-        first = b
-      if want is None or b['tag'] == want:
-        return dict(failing_input=b['input'], observed=b['observed'])
-  if first is not None:
-    return dict(failing_input=first['input'], observed=first['observed'])
-  return dict(note='no failing input among the quick stand-in instances')
+  for tier in ('quick', 'thorough'):
+    for desc, tags, thunk in cases(tier, seed):
+      b = thunk()
+      if b:
+        if first is None:
+          first = b
+        if want is None or b['tag'] == want:
+          return dict(failing_input=b['input'], observed=b['observed'])
+    if first is not None:
+      return dict(failing_input=first['input'], observed=first['observed'])
+  return dict(note='no failing input among the stand-in instances')
